@@ -229,6 +229,8 @@ impl<F: Future> Stream for FuturesUnordered<F> {
             match poll {
                 Poll::Ready(Some(x)) => {
                     *rem -= 1;
+                    // move on, so that a group that is always ready cannot starve the others
+                    *poll_next += 1;
                     return Poll::Ready(Some(x));
                 }
                 Poll::Ready(None) => {
@@ -253,6 +255,10 @@ impl<F: Future> Stream for FuturesUnordered<F> {
                     *poll_next += 1;
                 }
             }
+        }
+        if *rem == 0 {
+            // every group drained during this call: nothing registered our waker
+            return Poll::Ready(None);
         }
         Poll::Pending
     }
